@@ -15,8 +15,9 @@ WRAPS = ["langs", "gscon", "PivotGrowth", "gstrs", "gsrfs", "gsequ", "laqgs"]
 
 def build_harness(ctx, lib, fl, p):
     w = ",".join("--wrap=%s%s" % (p, x) for x in WRAPS)
+    w += ",--wrap=%slacon_" % p
     if p == "d":
-        w += ",--wrap=dlacon_,--wrap=sp_dtrsv"
+        w += ",--wrap=sp_dtrsv"
     return ctx.cc_harness("lacon_" + p, ["lacon_harness.c", "sp_ienv_verif.c"], lib,
                           fl + ["-DVP_PREC=%d" % PRECS[p]], extra_link=["-Wl," + w])
 
@@ -181,6 +182,8 @@ def parse_out(path):
             name = t[2]
             if name in ("lacon_in", "lacon_out"):
                 cur["ev"].append((name, int(t[3]), _fl(t[4]), [_fl(x) for x in t[5:]]))
+            elif name in ("ge_in", "ge_out"):
+                cur["ev"].append((name, int(t[3]), [_fl(x) for x in t[4:]]))
             elif name == "lacon_v":
                 cur["ev"].append((name, [_fl(x) for x in t[3:]]))
             elif name == "trsv_in":
